@@ -1,8 +1,11 @@
 (* C07 - Candidate unitary alignments are exactly those under the n*delta_empty cut.
-   Property theorems only; each is closed by [exact] of a lemma proved in theories/Align/CandProofs.v. *)
-From Coq Require Import List Arith ZArith.
+   Property theorems only; each is closed by [exact] of a lemma proved in theories/Align/CandProofs.v - except the C07_src_* theorems at the
+   end, which are re-proved on every run against genprops/KernelGen.v, the translation of the cut, the keep test, the final strip and the loop
+   shapes of _get_all_valid_alignments from the CURRENT dissimilarity.py (harness/gen_kernel.py). *)
+From Coq Require Import String List Arith ZArith Bool Lia.
 From PGA Require Import Align.Tuples Align.Cover Align.Inst Align.CandProofs.
 From PGAgen Require Import ConstGen.
+From PGAprops Require Import KernelGen.
 Import ListNotations.
 
 (* the enumeration of index tuples is complete, duplicate-free, and ends with the all-null tuple *)
@@ -58,3 +61,36 @@ Print Assumptions C07_buffered_eq_plain.
 Print Assumptions C07_judge_sound.
 Print Assumptions C07_judge_exact.
 Print Assumptions C07_all_null_last.
+
+(* ---------------------------------------------------------------------------------------------------------------------------------
+   Tie to the source (obligations a change of dissimilarity.py can break). *)
+Lemma c2n_src_eq n : c2n_src (Z.of_nat n) = Z.of_nat (c2n n).
+Proof.
+  unfold c2n_src, c2n. rewrite Nat2Z.inj_div, Nat2Z.inj_mul. destruct n as [|n]; [reflexivity|].
+  rewrite Nat2Z.inj_sub by lia. reflexivity.
+Qed.
+(* `criterium = c2n * delta_empty * nb_annotators` IS the model's cut *)
+Theorem C07_src_cut I : criterium_src (de I) (Z.of_nat (nann I)) = cut I.
+Proof. unfold criterium_src, cut. cbv zeta. fold (c2n_src (Z.of_nat (nann I))). rewrite c2n_src_eq. reflexivity. Qed.
+(* `if disorder <= criterium` IS the model's passes *)
+Theorem C07_src_keep I t : keep_src (criterium_src (de I) (Z.of_nat (nann I))) (ua_sum I t) = passes I t.
+Proof. rewrite C07_src_cut. reflexivity. Qed.
+(* `[:i_chosen - 1]` drops exactly the last recorded tuple, whatever was recorded *)
+Theorem C07_src_strip (A : Type) (l : list A) : firstn (Z.to_nat (kept_prefix_src (Z.of_nat (length l)))) l = removelast l.
+Proof.
+  unfold kept_prefix_src. destruct l as [|x l]; [reflexivity|].
+  replace (Z.to_nat (Z.of_nat (length (x :: l)) - 1)) with (length l) by (cbn [length]; lia).
+  rewrite (removelast_firstn_len (x :: l)). reflexivity.
+Qed.
+(* the loops around them have the shape the model reads: every tuple of iter_tuples(sizes + 1); the pair sum over annot_b < annot_a < n of the
+   precomputed matrices (ua_sum over pairs n); a kept tuple is recorded with its sum, unconditionally; the matrices hold d_mat of the two units
+   and delta_empty in the extra row and column (pair_cost); what is returned is divided by c2n *)
+Theorem C07_src_shape :
+  valid_alignments_shape =
+  [("pair_loop", expected_pair_loop);
+   ("record", "disorders[i_chosen] = disorder; alignments[i_chosen] = unitary_alignment; i_chosen += 1");
+   ("after_strip", "disorders /= c2n; return (disorders, alignments)");
+   ("sizes_with_null", "sizes_with_null[annotator_id] = len(unit_arrays[annotator_id]) + 1");
+   ("empty_fills", "for annot_a in range(nb_annot_a + 1): matrix[annot_a, nb_annot_b] = delta_empty; for annot_b in range(nb_annot_b + 1): matrix[nb_annot_a, annot_b] = delta_empty");
+   ("real_entries", "matrix[annot_a, annot_b] = d_mat(unit_arrays[annotator_a][annot_a], unit_arrays[annotator_b][annot_b])")]%string.
+Proof. reflexivity. Qed.
